@@ -1,7 +1,7 @@
 PROP = dict(
     id="C17",
     lean_modules=["TongoProofs.C17"],
-    gen=[],
+    gen=["Shards", "Crc16Table"],
     spec_ops=(),
     rule="shards: random prefix length 0..63 (boundaries over-weighted) x random prefix; addresses inside/outside the "
          "shard incl. ones differing in the last prefix bit; related (ancestor/descendant) and unrelated shard pairs. "
